@@ -1035,6 +1035,31 @@ func checkDigestAdvertised(r *Report, p *Prog, rule string) {
 			foreign = append(foreign, nm)
 		}
 		sort.Strings(foreign)
+		if len(foreign) > 0 {
+			// a gate that refuses the whole operation is not a condition on the element: what matters is that every
+			// successful return with a configured digest has passed through the write
+			top := rg.Ctx(a, rg.top)
+			top.ensureConds()
+			B := a.B
+			configured := B.True
+			for _, nm := range B.names {
+				if ai := a.Atoms[nm]; ai != nil && ai.Kind == "isnil" && len(ai.Args) == 1 && strings.HasSuffix(ai.Args[0], "RSA.DigestMethod") {
+					configured = B.And(configured, B.Not(B.Var(nm)))
+				}
+			}
+			created := fc.AbsCond(c.Block())
+			all, nRet := true, 0
+			for _, ret := range top.Returns() {
+				if len(ret.Results) != 2 || !isNilConst(Resolve(ret.Results[1])) {
+					continue
+				}
+				nRet++
+				all = all && B.Implies(B.And(top.Cond(ret.Block()), configured), created)
+			}
+			if all && nRet > 0 {
+				foreign = nil
+			}
+		}
 		r.Check(len(foreign) == 0, rule, p.FnName(fn)+": the digest used to wrap the key is named in the EncryptedKey", p.InstrPos(c), "ds:DigestMethod is written whenever a digest is configured", "ds:DigestMethod is written only under "+strings.Join(foreign, ", ")+": a key wrapped with a configured digest is emitted without naming it, and every decrypter (this package's too) then assumes SHA-1")
 	})
 	if n == 0 {
